@@ -928,6 +928,9 @@ class C13(Prop):
                 _, base, q, fresh, nn = m
                 hv, stepsv = rows[base][1], rows[base + 1][1]
                 nav = [rows[base + 2 + i][1] for i in range(nn)]
+                if hv and hv[0] in ("panic", "timeout", "crash"):
+                    ctx.oracle("history_never_fails", False, "a query history on clones sharing the cache fails with %s (shared mutable state)" % hv[0], [q], cls="oracle:cache_fails")
+                    continue
                 if not hv or hv[0] != "l" or not stepsv or stepsv[0] != "l" or any(x is None or x[0] != "n" for x in nav): continue
                 exp = []; it = iter(nav)
                 for f in fresh:
@@ -1843,10 +1846,19 @@ class C04(Prop):
             cbs, sb = gen_ros_system(rng, frames=True)
             limit = rng.randint(100, 600)
             rbf = lambda c: ["rbf", c["ab"], (["multiframe", c["frames"]] if c.get("frames") else ["scalar", c["cost"]])]
-            kind = rng.choice(["es", "timer", "pp"])
+            kind = rng.choice(["es", "timer", "pp", "chain"])
             if kind == "timer" and not any(c["kind"] == "timer" for c in cbs): kind = "pp"
+            pol = [i for i, c in enumerate(cbs) if c["kind"] == "polled"]
+            if kind == "chain" and (len(pol) < 2 or any(c.get("frames") for c in cbs)): kind = "pp"
             if kind == "es":
                 q = ["es", sb, ["agg", [rbf(c) for c in cbs]], limit]; tgt = None
+            elif kind == "chain":
+                # chain first -> last of two polled callbacks: `last` has no arrivals of its own, it is released when `first` completes
+                first, last = rng.sample(pol, 2)
+                ab = cbs[first]["ab"]
+                lastrb = ["rbf", ab, ["scalar", cbs[last]["cost"]]]; pre = [["rbf", ab, ["scalar", cbs[first]["cost"]]]]
+                others = [rbf(c) for i, c in enumerate(cbs) if i not in (first, last)]
+                q = ["chain", sb, lastrb, ["agg", pre], ["agg", pre + [lastrb]], ["agg", others], limit]; tgt = ("chain", first, last)
             elif kind == "timer":
                 tgt = rng.choice([i for i, c in enumerate(cbs) if c["kind"] == "timer"])
                 hp = [rbf(c) for i, c in enumerate(cbs) if c["kind"] == "timer" and c["prio"] < cbs[tgt]["prio"]]
@@ -1877,6 +1889,12 @@ class C04(Prop):
                         done = fifo_under_supply(jobs, sup, H + 400)
                         for k, j in enumerate(jobs):
                             if j[2] == victim and done[k] is not None and done[k] - j[0] > worst: worst = done[k] - j[0]; wit = dict(job=j[:3], response=worst)
+                elif isinstance(tgt, tuple):
+                    _, first, last = tgt
+                    dly = 0 if tr == 0 else rng.randint(0, 10)
+                    rel = [(a, i) for (a, i) in ros_releases(cbs, rng, H, first, dly) if i != last]     # `last` is only triggered by `first`
+                    for (cb, a, fin, src) in sim.executor(cbs, {first: last}, rel, sup, H + 400):
+                        if cb == last and fin - src > worst: worst = fin - src; wit = dict(chain=(first, last), source_arrival=src, completion=fin)
                 else:
                     dly = 0 if tr == 0 else rng.randint(0, 10)
                     rel = ros_releases(cbs, rng, H, tgt, dly)
